@@ -4,14 +4,6 @@
 // which the code is proved to implement (units lex, tree, front).
 // ======================================================================================
 // (1) extra whitespace in front of any token (tokens are consumed one after the other by lex_group)
-pub proof fn lemma_ws_front(s: Seq<char>, c: char, top: bool, ext: bool)
-    requires is_white_space(c)
-    ensures lex_group(seq![c] + s, top, ext) == lex_group(s, top, ext)
-{
-    let w = seq![c] + s;
-    lemma_lex_group_unfold(w, top, ext);
-    assert(w.drop_first() =~= s);
-}
 // ... and inside the header of a hybrid operator (after the operator, after the variable, around `in`, before ':')
 pub proof fn lemma_ws_skip(s: Seq<char>, c: char)
     requires is_white_space(c)
@@ -27,24 +19,6 @@ pub proof fn lemma_ws_hdr(s: Seq<char>, c: char, dom_ok: bool)
     lemma_ws_skip(s, c);
 }
 // (2) long versus short spellings of the hybrid operators
-pub proof fn lemma_take_name_lit(lit: Seq<char>, r: Seq<char>)
-    requires forall|i: int| 0 <= i < lit.len() ==> name_char(#[trigger] lit[i]), r.len() == 0 || !name_char(r[0])
-    ensures take_name(lit + r) == lit, drop_name(lit + r) == r
-    decreases lit.len()
-{
-    let w = lit + r;
-    if lit.len() == 0 {
-        assert(w =~= r);
-        assert(take_name(w) =~= Seq::<char>::empty());
-    } else {
-        assert(w[0] == lit[0]);
-        let lit2 = lit.drop_first();
-        assert(w.drop_first() =~= lit2 + r);
-        assert forall|i: int| 0 <= i < lit2.len() implies name_char(#[trigger] lit2[i]) by { assert(lit2[i] == lit[i + 1]); }
-        lemma_take_name_lit(lit2, r);
-        assert(seq![lit[0]] + lit2 =~= lit);
-    }
-}
 pub proof fn lemma_long_bind(r: Seq<char>, ext: bool)
     requires r.len() == 0 || !name_char(r[0])
     ensures lex_one("\\bind"@ + r, ext) == lex_one("!"@ + r, ext)
